@@ -103,6 +103,7 @@ func (op *ShellOperator) combineBindingContextForHook(tqs *queue.TaskQueueSet, q
 
 	// Delete tasks with false in tasksFilter map
 	tqs.GetByName(t.GetQueueName()).Filter(func(tsk task.Task) bool {
+		verifhook.Yield("combine.inFilter")
 		if v, ok := tasksFilter[tsk.GetId()]; ok {
 			return v
 		}
